@@ -5,6 +5,9 @@ import (
 	"context"
 	"encoding/json"
 	"fmt"
+	"go/ast"
+	"go/parser"
+	"go/token"
 	"os"
 	"os/exec"
 	"path/filepath"
@@ -70,6 +73,13 @@ func checkC19Target(raw json.RawMessage) (ev.Result, error) {
 	out, err = goCmd(env, append(args, "./crossassert")...)
 	if err != nil {
 		return res, fmt.Errorf("on %s/%s a constant exposed by the library differs from the Linux UAPI value (the assertion package does not compile):\n%s", c.GOOS, c.GOARCH, clip(string(out), 1500))
+	}
+	// every exported Action* / FilterFlag* constant found in the source (also ones the fixed assertion package does not
+	// know yet) against the UAPI value, where the vendored tables have one
+	if out, n, err := buildDynAssert(c.GOOS, c.GOARCH); err != nil && out != "" {
+		return res, fmt.Errorf("on %s/%s an exported constant of the library differs from the Linux UAPI value (generated assertions for the %d constants found in the source do not compile):\n%s", c.GOOS, c.GOARCH, n, clip(out, 1500))
+	} else if err == nil && n > 0 {
+		res.Classes = append(res.Classes, "constants-discovered-in-the-source")
 	}
 	// without the verification tag the library must build as well (the hooks must not be load-bearing)
 	args = append([]string{"build"}, modfileArg()...)
@@ -542,6 +552,7 @@ func checkWasm(raw json.RawMessage) (ev.Result, error) {
 		Panics       []string
 		Policies     int
 		Constants    map[string]uint32
+		Lookups      map[string]string
 	}
 	if err := json.Unmarshal(bytes.TrimSpace(so.Bytes()), &r); err != nil || r.GOOS == "" {
 		if strings.Contains(se.String(), "panic:") || strings.Contains(so.String(), "panic:") {
@@ -575,7 +586,17 @@ func checkWasm(raw json.RawMessage) (ev.Result, error) {
 			return ev.Result{}, fmt.Errorf("on js/wasm %s = %#x, the kernel's %s is %#x", want.name, r.Constants[want.name], want.c, oracle.Const(want.c))
 		}
 	}
-	res := ev.Result{Classes: []string{"js-wasm-executed", "table-less-target-executed"}, Sub: r.Policies + len(r.LoadErrs) + 3, NonTrivial: true}
+	// the architecture lookups give the same answers as in this (linux/amd64) process
+	for n, got := range r.Lookups {
+		want := "error"
+		if info, err := arch.GetInfo(n); err == nil {
+			want = fmt.Sprintf("%s/%d/%d/%d/read=%d", info.Name, uint32(info.ID), len(info.SyscallNames), len(info.SyscallNumbers), info.SyscallNames["read"])
+		}
+		if got != want {
+			return ev.Result{}, fmt.Errorf("on js/wasm arch.GetInfo(%q) answers %q, in a linux/amd64 process %q: the lookup of an explicitly named architecture depends on the build target", n, got, want)
+		}
+	}
+	res := ev.Result{Classes: []string{"js-wasm-executed", "table-less-target-executed"}, Sub: r.Policies + len(r.LoadErrs) + 3 + len(r.Lookups), NonTrivial: true}
 	return res, nil
 }
 
@@ -619,4 +640,327 @@ func TestC07JsWasm(t *testing.T) {
 		c.Corpus = append(c.Corpus, json.RawMessage(hand))
 	}
 	ev.CheckOne(t, "C07", "jswasm", c, checkWasm)
+}
+
+func TestC12JsWasm(t *testing.T) {
+	ev.Register("C12", "jswasm", checkWasm)
+	var c c19WasmCase
+	for _, hand := range []string{
+		`{"arch":"x86_64","default":2147418112,"groups":[{"action":327680,"names":["execve"]}]}`,
+	} {
+		c.Corpus = append(c.Corpus, json.RawMessage(hand))
+	}
+	ev.CheckOne(t, "C12", "jswasm", c, checkWasm)
+}
+
+// ---- constants discovered in the source: every exported Action* / FilterFlag* constant, also ones added later ----
+
+// further UAPI values (include/uapi/linux/seccomp.h, Linux 6.1) for constants the library may come to expose
+var c19MoreUAPI = map[string]uint64{
+	"SECCOMP_FILTER_FLAG_SPEC_ALLOW": 1 << 2, "SECCOMP_FILTER_FLAG_NEW_LISTENER": 1 << 3, "SECCOMP_FILTER_FLAG_TSYNC_ESRCH": 1 << 4,
+	"SECCOMP_FILTER_FLAG_WAIT_KILLABLE_RECV": 1 << 5, "SECCOMP_RET_KILL": 0,
+}
+
+// uapiNameOf maps ActionKillThread -> SECCOMP_RET_KILL_THREAD, FilterFlagTSyncESRCH -> SECCOMP_FILTER_FLAG_TSYNC_ESRCH.
+func uapiNameOf(goName string) string {
+	prefix, rest := "", ""
+	switch {
+	case strings.HasPrefix(goName, "Action"):
+		prefix, rest = "SECCOMP_RET_", goName[len("Action"):]
+	case strings.HasPrefix(goName, "FilterFlag"):
+		prefix, rest = "SECCOMP_FILTER_FLAG_", goName[len("FilterFlag"):]
+	default:
+		return ""
+	}
+	rest = strings.NewReplacer("TSync", "Tsync", "ESRCH", "Esrch", "UserNotify", "UserNotif").Replace(rest)
+	var b strings.Builder
+	for i, r := range rest {
+		if i > 0 && r >= 'A' && r <= 'Z' {
+			b.WriteByte('_')
+		}
+		b.WriteRune(r)
+	}
+	return prefix + strings.ToUpper(b.String())
+}
+
+type dynConst struct {
+	Go, UAPI string
+	Want     uint64
+}
+
+func discoverConstants(repo string) ([]dynConst, error) {
+	fset := token.NewFileSet()
+	pkgs, err := parser.ParseDir(fset, repo, func(fi os.FileInfo) bool { return !strings.HasSuffix(fi.Name(), "_test.go") }, 0)
+	if err != nil {
+		return nil, err
+	}
+	seen := map[string]bool{}
+	var out []dynConst
+	for _, pkg := range pkgs {
+		for _, f := range pkg.Files {
+			for _, d := range f.Decls {
+				gd, ok := d.(*ast.GenDecl)
+				if !ok || gd.Tok != token.CONST {
+					continue
+				}
+				for _, sp := range gd.Specs {
+					for _, id := range sp.(*ast.ValueSpec).Names {
+						if !id.IsExported() || seen[id.Name] {
+							continue
+						}
+						u := uapiNameOf(id.Name)
+						if u == "" {
+							continue
+						}
+						seen[id.Name] = true
+						if v, ok := oracle.ConstOK(u); ok {
+							out = append(out, dynConst{id.Name, u, uint64(v)})
+						} else if v, ok := c19MoreUAPI[u]; ok {
+							out = append(out, dynConst{id.Name, u, v})
+						}
+					}
+				}
+			}
+		}
+	}
+	sort.Slice(out, func(i, j int) bool { return out[i].Go < out[j].Go })
+	return out, nil
+}
+
+var (
+	dynOnce sync.Once
+	dynDir  string
+	dynErr  error
+	dynN    int
+)
+
+// dynAssertModule writes a module with one compile-time assertion per discovered constant.
+func dynAssertModule() (string, int, error) {
+	dynOnce.Do(func() {
+		repo := os.Getenv("VERIF_REPO")
+		if repo == "" {
+			repo = "/repo"
+		}
+		cs, err := discoverConstants(repo)
+		if err != nil {
+			dynErr = err
+			return
+		}
+		dir, err := os.MkdirTemp(os.Getenv("VERIF_TMP"), "dynassert")
+		if err != nil {
+			dynErr = err
+			return
+		}
+		var b strings.Builder
+		b.WriteString("// generated: every exported Action*/FilterFlag* constant found in the source against the UAPI value\npackage dynassert\n\nimport seccomp \"github.com/elastic/go-seccomp-bpf\"\n\n")
+		for _, c := range cs {
+			fmt.Fprintf(&b, "var _ [uint64(seccomp.%s) - %d]struct{} // %s\nvar _ [%d - uint64(seccomp.%s)]struct{}\n", c.Go, c.Want, c.UAPI, c.Want, c.Go)
+		}
+		os.WriteFile(filepath.Join(dir, "dyn.go"), []byte(b.String()), 0o644)
+		gomod := "module dynassert\n\ngo 1.23\n\nrequire (\n\tgithub.com/elastic/go-seccomp-bpf v0.0.0\n\tgolang.org/x/net v0.24.0\n\tgolang.org/x/sys v0.19.0\n)\n\nreplace github.com/elastic/go-seccomp-bpf => " + repo + "\n"
+		os.WriteFile(filepath.Join(dir, "go.mod"), []byte(gomod), 0o644)
+		sum, _ := os.ReadFile(filepath.Join(harnessDir(), "go.sum"))
+		os.WriteFile(filepath.Join(dir, "go.sum"), sum, 0o644)
+		dynDir, dynN = dir, len(cs)
+	})
+	return dynDir, dynN, dynErr
+}
+
+func buildDynAssert(goos, goarch string) (string, int, error) {
+	dir, n, err := dynAssertModule()
+	if err != nil || n == 0 {
+		return "", n, err
+	}
+	cmd := exec.Command("go", "build", "./...")
+	cmd.Dir = dir
+	cmd.Env = append(os.Environ(), "GOOS="+goos, "GOARCH="+goarch, "GOFLAGS=-mod=mod", "GOPROXY=off", "GOSUMDB=off", "GOTOOLCHAIN=local", "GOWORK=off", "CGO_ENABLED=0")
+	out, err := cmd.CombinedOutput()
+	if err != nil {
+		return string(out), n, fmt.Errorf("build failed")
+	}
+	return "", n, nil
+}
+
+// ---- the build's own architecture on targets that cannot be executed here: overlay with runtime.GOARCH replaced ----
+
+// Targets like linux/mips or linux/s390x cannot run on this machine, and the native lookup (the empty name, which
+// Policy.Assemble uses) only shows its behaviour on the target itself. The arch package is therefore rebuilt for the
+// host with an overlay in which every textual `runtime.GOARCH` of its source files is replaced by the name of the target's
+// GOARCH, and a small program reports what GetInfo("") and Assemble do. If the sources do not mention runtime.GOARCH
+// (any more), nothing is replaced and the unit records that it could not simulate.
+
+type c19OverlayCase struct {
+	GOARCH string `json:"goarch"`
+}
+
+type c19OverlayOutcome struct {
+	res ev.Result
+	err error
+}
+
+var (
+	c19OverlayMu    sync.Mutex
+	c19OverlayCache = map[string]c19OverlayOutcome{}
+)
+
+func checkC19Overlay(raw json.RawMessage) (ev.Result, error) {
+	var c c19OverlayCase
+	if err := json.Unmarshal(raw, &c); err != nil {
+		return ev.Result{}, ev.Inconclusivef("bad case: %v", err)
+	}
+	c19OverlayMu.Lock()
+	o, ok := c19OverlayCache[c.GOARCH]
+	c19OverlayMu.Unlock()
+	if ok {
+		return o.res, o.err
+	}
+	return computeC19Overlay(c)
+}
+
+func computeC19Overlay(c c19OverlayCase) (ev.Result, error) {
+	repo := os.Getenv("VERIF_REPO")
+	if repo == "" {
+		repo = "/repo"
+	}
+	dir, err := os.MkdirTemp(os.Getenv("VERIF_TMP"), "c19overlay")
+	if err != nil {
+		return ev.Result{}, ev.Inconclusivef("%v", err)
+	}
+	defer os.RemoveAll(dir)
+	overlay := map[string]string{}
+	replaced := 0
+	for _, sub := range []string{"arch", "."} {
+		ents, err := os.ReadDir(filepath.Join(repo, sub))
+		if err != nil {
+			return ev.Result{}, ev.Inconclusivef("%v", err)
+		}
+		for _, e := range ents {
+			n := e.Name()
+			if e.IsDir() || !strings.HasSuffix(n, ".go") || strings.HasSuffix(n, "_test.go") {
+				continue
+			}
+			src, err := os.ReadFile(filepath.Join(repo, sub, n))
+			if err != nil || !bytes.Contains(src, []byte("runtime.GOARCH")) {
+				continue
+			}
+			k := bytes.Count(src, []byte("runtime.GOARCH"))
+			patched := bytes.ReplaceAll(src, []byte("runtime.GOARCH"), []byte(fmt.Sprintf("%q", c.GOARCH)))
+			patched = append(patched, []byte("\nvar _ = runtime.GOOS // keeps the import used\n")...)
+			os.MkdirAll(filepath.Join(dir, "ov"), 0o755)
+			dst := filepath.Join(dir, "ov", fmt.Sprintf("%s_%s.txt", strings.ReplaceAll(sub, ".", "root"), n))
+			if err := os.WriteFile(dst, patched, 0o644); err != nil {
+				return ev.Result{}, ev.Inconclusivef("%v", err)
+			}
+			overlay[filepath.Join(repo, sub, n)] = dst
+			replaced += k
+		}
+	}
+	if replaced == 0 {
+		return ev.Result{Classes: []string{"native-lookup-not-simulated(no textual runtime.GOARCH)"}}, nil
+	}
+	ob, _ := json.Marshal(map[string]any{"Replace": overlay})
+	ovPath := filepath.Join(dir, "overlay.json")
+	os.WriteFile(ovPath, ob, 0o644)
+	mainSrc := `package main
+
+import (
+	"fmt"
+
+	seccomp "github.com/elastic/go-seccomp-bpf"
+	"github.com/elastic/go-seccomp-bpf/arch"
+)
+
+func main() {
+	defer func() {
+		if x := recover(); x != nil {
+			fmt.Printf("panic=%v\n", x)
+		}
+	}()
+	info, err := arch.GetInfo("")
+	if err != nil {
+		fmt.Println("native=error")
+	} else {
+		fmt.Printf("native=%s/%d\n", info.Name, len(info.SyscallNames))
+	}
+	for i, p := range []seccomp.Policy{
+		{DefaultAction: seccomp.ActionAllow, Syscalls: []seccomp.SyscallGroup{{Action: seccomp.ActionErrno, Names: []string{"read"}}}},
+		{DefaultAction: seccomp.ActionAllow, Syscalls: []seccomp.SyscallGroup{{Action: seccomp.ActionErrno}}},
+		{DefaultAction: seccomp.ActionErrno, Syscalls: []seccomp.SyscallGroup{{Action: seccomp.ActionAllow, Names: []string{}}}},
+	} {
+		insts, err := p.Assemble()
+		fmt.Printf("policy%d=%d/%v\n", i, len(insts), err != nil)
+	}
+}
+`
+	os.WriteFile(filepath.Join(dir, "main.go"), []byte(mainSrc), 0o644)
+	gomod := "module c19overlay\n\ngo 1.23\n\nrequire (\n\tgithub.com/elastic/go-seccomp-bpf v0.0.0\n\tgolang.org/x/net v0.24.0\n\tgolang.org/x/sys v0.19.0\n)\n\nreplace github.com/elastic/go-seccomp-bpf => " + repo + "\n"
+	os.WriteFile(filepath.Join(dir, "go.mod"), []byte(gomod), 0o644)
+	sum, _ := os.ReadFile(filepath.Join(harnessDir(), "go.sum"))
+	os.WriteFile(filepath.Join(dir, "go.sum"), sum, 0o644)
+	bin := filepath.Join(dir, "prog")
+	cmd := exec.Command("go", "build", "-overlay", ovPath, "-o", bin, ".")
+	cmd.Dir = dir
+	cmd.Env = append(os.Environ(), "GOFLAGS=-mod=mod", "GOPROXY=off", "GOSUMDB=off", "GOTOOLCHAIN=local", "GOWORK=off", "CGO_ENABLED=0")
+	if out, err := cmd.CombinedOutput(); err != nil {
+		return ev.Result{Classes: []string{"native-lookup-not-simulated(overlay does not build)"}}, ev.Inconclusivef("overlay build for %s: %v\n%s", c.GOARCH, err, clip(string(out), 600))
+	}
+	out, err := exec.Command(bin).Output()
+	if err != nil {
+		return ev.Result{}, ev.Inconclusivef("overlay program: %v", err)
+	}
+	m := map[string]string{}
+	for _, l := range strings.Split(strings.TrimSpace(string(out)), "\n") {
+		if kv := strings.SplitN(l, "=", 2); len(kv) == 2 {
+			m[kv[0]] = kv[1]
+		}
+	}
+	res := ev.Result{Classes: []string{"native-lookup-simulated-by-overlay", "overlay:" + c.GOARCH}, NonTrivial: true, Sub: 4}
+	if p, ok := m["panic"]; ok {
+		return res, fmt.Errorf("with the build's architecture being %s the library panics: %s", c.GOARCH, p)
+	}
+	tables := map[string]string{"386": "i386", "amd64": "x86_64", "arm": "arm", "arm64": "aarch64"}
+	if want, ok := tables[c.GOARCH]; ok {
+		if !strings.HasPrefix(m["native"], want+"/") {
+			return res, fmt.Errorf("with the build's architecture being %s, GetInfo(\"\") answers %q, want the %s table", c.GOARCH, m["native"], want)
+		}
+		if m["policy0"] == "" || strings.HasPrefix(m["policy0"], "0/") {
+			return res, fmt.Errorf("with the build's architecture being %s a valid policy does not compile (%s)", c.GOARCH, m["policy0"])
+		}
+		res.Classes = append(res.Classes, "overlay:goarch-with-tables")
+		return res, nil
+	}
+	if m["native"] != "error" {
+		return res, fmt.Errorf("with the build's architecture being %s (no syscall tables) GetInfo(\"\") succeeds: %s", c.GOARCH, m["native"])
+	}
+	for i := 0; i < 3; i++ {
+		v := m[fmt.Sprintf("policy%d", i)]
+		if !strings.HasPrefix(v, "0/true") {
+			return res, fmt.Errorf("with the build's architecture being %s (no syscall tables) compilation of policy %d gives instructions/error = %s, want no program and an error", c.GOARCH, i, v)
+		}
+	}
+	res.Classes = append(res.Classes, "overlay:goarch-without-tables")
+	return res, nil
+}
+
+func TestC19NativeOverlay(t *testing.T) {
+	ev.Register("C19", "native-overlay", checkC19Overlay)
+	var wg sync.WaitGroup
+	archs := []string{"mips", "mipsle", "mips64", "mips64le", "ppc64", "ppc64le", "s390x", "riscv64", "loong64", "wasm", "386", "arm", "arm64", "amd64"}
+	// the builds run in parallel, the verdicts are then taken one after the other
+	for _, a := range archs {
+		wg.Add(1)
+		go func(a string) {
+			defer wg.Done()
+			res, err := computeC19Overlay(c19OverlayCase{GOARCH: a})
+			c19OverlayMu.Lock()
+			c19OverlayCache[a] = c19OverlayOutcome{res, err}
+			c19OverlayMu.Unlock()
+		}(a)
+	}
+	wg.Wait()
+	for _, a := range archs {
+		if !ev.CheckOne(t, "C19", "native-overlay", c19OverlayCase{GOARCH: a}, checkC19Overlay) {
+			return
+		}
+	}
 }
